@@ -397,6 +397,11 @@ class CircuitCompositeOperation(ICircuitCompositeOperation):
         for node in other._circuit_graph.get_node_iterator():
             if not node.operation.has_relation:
                 node.operation.relation_link = relation.duplicate()
+                if not root_is_leaf:
+                    # Attach to the last listed (deepest) leaf, such that the extension is listed after everything
+                    # that precedes it. (The start time follows the latest-ending leaf, through the relation link.)
+                    self._circuit_graph.append_pointer_to(leaf_nodes[-1], OperationGraphNode(operation=node.operation))
+                    continue
             self.add(operation=node.operation)
         return self
 
